@@ -73,6 +73,41 @@ static void reg_sig_handler(int signo)
 	handler_runs++;
 }
 
+/*
+ * bp: an application thread-specific-data destructor whose key is younger than the library's
+ * own, so that it runs after the library has unregistered the exiting thread, and which still
+ * uses the read side ("a thread may use the read side at any time of its life, registration
+ * is automatic"): the thread is registered again on the fly and unregistered by the next
+ * destructor round.
+ */
+static pthread_key_t late_key;
+static int late_on[MAX_SCRIPT_THREADS], late_pauses[MAX_SCRIPT_THREADS];
+
+static void late_dtor(void *v)
+{
+	int me = (int) (long) v - 1, cs, k;
+	struct obj *p;
+	long ver, a, b;
+
+	usim_set_op("%d.exit read-side section in a TSD destructor", me);
+	if (!URCU_TLS(urcu_bp_reader) && usim_tid() >= 0 && usim_tid() < 64)
+		slot_of[usim_tid()] = NULL;	/* unregistered by the library's destructor: a new registration follows */
+	F->read_lock();
+	cs = orc_cs_begin(200 + me);
+	p = rcu_dereference(gptr);
+	ver = p->version;
+	a = p->a;
+	for (k = 0; k < late_pauses[me]; k++)
+		usim_pause();
+	b = p->b;
+	if (a != ver * 3 + 1 || b != ver * 7 + 2)
+		usim_fail("reclaimed-object-read", "TSD destructor of exiting thread %d saw a reclaimed object", me);
+	orc_cs_end(cs);
+	bp_slot_check("in a thread-specific-data destructor at thread exit");
+	F->read_unlock();
+	usim_probe("gp.bp_read_side_in_late_tsd_destructor");
+}
+
 static struct obj *new_obj(void)
 {
 	struct obj *o = malloc(sizeof(*o));
@@ -222,6 +257,8 @@ static void *gp_thread(void *arg)
 		usim_signal_plan(usim_tid(), 10, (uint64_t) sig_after[me]);
 	if (!F->is_bp)
 		F->register_thread();
+	if (F->is_bp && late_on[me])
+		pthread_setspecific(late_key, (void *) (long) (me + 1));
 	qsbr_open(me);
 	if (last < 0)
 		usim_quiet_vote();
@@ -329,6 +366,8 @@ static void gen(int live)
 		usim_describe("]");
 		wave[t] = 0;
 		sig_after[t] = 0;
+		late_on[t] = F->is_bp && rnd(3) == 0;
+		late_pauses[t] = (int) rnd(6);
 		if (reg_mode && F->is_bp) {
 			/* last one or two threads form a second wave started after everybody exited */
 			if (nthreads >= 3 && t >= nthreads - 1 - (int) (rnd(2) && nthreads >= 4))
@@ -360,6 +399,8 @@ static void run_common(int live)
 		usim_signal_handler(10, reg_sig_handler);
 	}
 	gen(live);
+	if (F->is_bp && pthread_key_create(&late_key, late_dtor))
+		usim_fail("api-error", "pthread_key_create failed");
 	gptr = new_obj();
 	gptr->version = 0;
 	gptr->a = 1;
